@@ -127,6 +127,31 @@ def run(prog: Program, rep, thorough: bool) -> None:
                  f'the density routine gives {rho:.6f} kg/m^3 at the standard sea-level state but cStandardDensityMetric = '
                  f'{consts["cStandardDensityMetric"]}: the standard atmosphere would not have density ratio 1')
 
+    # dry air is the limit of humid air: the routine evaluated at humidity 0 and at 1e-9 (exact arithmetic on the
+    # literals, three temperatures) must agree to 1e-7 - a special case for `humidity == 0` that drops a term makes the
+    # density jump there, and "falls with humidity" fails at the boundary
+    jumps = []
+    for tc_ in (-45, 15, 35):
+        vals_ = []
+        for hum_ in (Fraction(0), Fraction(1, 10 ** 9)):
+            try:
+                rj, _sj = Evaluator(prog).call_value(cad, [Scalar(Fraction(tc_)), Scalar(Fraction(repr(consts['cStandardPressureMetric']))),
+                                                           Scalar(hum_)])
+            except Undecided as exc:
+                raise AnalysisError(f'calculate_air_density at {tc_} C: {exc}') from exc
+            nums = [A.numeric(x.rf) if isinstance(x, Scalar) else None for _cp, x in cond_leaves(rj)]
+            if len(nums) != 1 or nums[0] is None:
+                raise AnalysisError(f'calculate_air_density at {tc_} C does not fold to a number')
+            vals_.append(nums[0])
+        if abs(vals_[1] / vals_[0] - 1) > 1e-7:
+            jumps.append(f'at {tc_} C the density is {vals_[0]:.8f} kg/m^3 for humidity 0 and {vals_[1]:.8f} for humidity 1e-9 '
+                         f'(relative jump {abs(vals_[1] / vals_[0] - 1):.1e})')
+    if jumps:
+        rep.fail('C08.R1', cond.path, cad.node.lineno, cad.qualname, 'dry-limit',
+                 'dry air is not the limit of humid air: ' + jumps[0] + '; density does not fall with humidity across the boundary')
+    else:
+        rep.ok('C08.R1', cad.where, 'the density at humidity 0 is the limit of the density at humidity -> 0 (three temperatures, 1e-7)')
+
     # ---- R2 ------------------------------------------------------------------------------------
     def sym_exponent(ev_, module, name):
         return S('kexp')
@@ -241,6 +266,46 @@ def run(prog: Program, rep, thorough: bool) -> None:
             rep.fail('C08.R2', cond.path, gdf.node.lineno, gdf.qualname, 'composition',
                      'a standard station extrapolated to another altitude does not reproduce the standard atmosphere '
                      'there (station and standard formulas use inconsistent lapse rate / reference temperature)')
+    # what the shortcut hands out: the station's cached speed of sound, as construction leaves it and as it stands after
+    # the humidity has been set again, must be the dry-air value sqrt(T) x coefficient of the station temperature - the
+    # same law the long branch uses - or the two branches disagree at the 30-ft boundary
+    evc = Evaluator(prog, hooks=C.pref_hooks(prog), opaque={'calculate_air_density'})
+    stc = State()
+    qc = lambda d_, s_, u_: C.mk_quantity(evc, stc, prog, d_, s_, u_)
+    try:
+        built = evc.construct(atmo_c, [qc('Distance', 'a_raw', 'Foot'), qc('Pressure', 'p_raw', 'hPa'), qc('Temperature', 'tC', 'Celsius'),
+                                       Scalar(Fraction(1, 2))], {}, stc, ctx)
+    except Undecided as exc:
+        raise AnalysisError(f'Atmo.__init__: {exc}') from exc
+    if not isinstance(built, Inst):
+        raise AnalysisError(f'Atmo(...) evaluates to {built!r}')
+    tC = A.sym('tC')          # the raw magnitude of a temperature is in Fahrenheit
+    want_mach = ((tC + A.rf(Fraction(repr(consts['cDegreesFtoR'])))) ** Fraction(1, 2)) * \
+        A.rf(Fraction(repr(consts['cSpeedOfSoundImperial'])))
+
+    def cached_mach_ok(tag: str) -> Optional[str]:
+        mv_ = stc.heap[built.oid].get('_mach')
+        mains = [x for p_, x in cond_leaves(mv_) if isinstance(x, Scalar) and x.rf.depends_on('tC')] if mv_ is not None else []
+        if not mains:
+            return f'{tag} the cached speed of sound is {mv_!r}'[:200]
+        for x in mains:
+            r_ = A.ratio_const(x.rf, want_mach)
+            if r_ is None or abs(r_ - 1) > 1e-4:
+                return (f'{tag} the cached speed of sound is {x.rf!r}'[:220] + ', not sqrt(T) x the coefficient of the station '
+                        'temperature: the shortcut and the long branch disagree at the 30-ft boundary')
+        return None
+    bad_cached = cached_mach_ok('after construction')
+    if bad_cached is None and 'humidity' in atmo_c.setters:
+        try:
+            evc.call_func(atmo_c.setters['humidity'], [Scalar(Fraction(1, 4))], {}, stc, ctx, self_val=built)
+        except Undecided as exc:
+            raise AnalysisError(f'humidity setter on a built station: {exc}') from exc
+        bad_cached = cached_mach_ok('after the humidity has been set again')
+    if bad_cached:
+        rep.fail('C08.R2', cond.path, atmo_c.node.lineno, 'Atmo', 'cached-mach', bad_cached)
+    else:
+        rep.ok('C08.R2', f'{cond.path}:{atmo_c.node.lineno}', 'the cached speed of sound is sqrt(T) x coefficient of the station temperature '
+               'after construction and after the humidity setter')
     # density factor and Mach reference of the long branch; shortcut
     try:
         rv, st = ev.call_value(gdf, [S('h')], self_val=station, st=st)
